@@ -78,7 +78,7 @@ Proof. exact outputs_agree. Qed.
    theta (Pgf.ced_sum); the proof goes through the binomial moments sum_kappa S_kappa = N psihat(theta),
    sum kappa S_kappa = N u psihat'(theta), sum kappa(kappa-1) S_kappa = N u^2 psihat''(theta) and the absorption identity
    (kappa+1) C(k,kappa+1) = (k-kappa) C(k,kappa) for the scipy.ndimage.shift term.  u <> 0: the code divides by sum kappa S_kappa *)
-Theorem C07x_ebcm_to_compact_effective_degree : forall c t N tau g phiS0 phiR0 (ps psP : Q -> Q) theta, ~ theta == 0 -> forall R,
+Theorem C07x_ebcm_to_compact_effective_degree : forall c t N tau g phiS0 phiR0 (ps psP : Q -> Q) theta R,
   ps theta == peval c theta -> psP theta == D c theta -> psP 1 == D c 1 ->
   ~ tau == 0 -> ~ N == 0 -> ~ peval (u_p tau g phiR0) theta == 0 -> ~ D c theta == 0 -> ~ D c 1 == 0 ->
   let e := dEBCM [theta; R] t N tau g ps psP phiS0 phiR0 in
@@ -90,17 +90,16 @@ Proof. exact ebcm_to_ced. Qed.
    S_{s,i} = N sum_k c_k C(k,s) C(k-s,i) phiS^s phiI^i phiR^(k-s-i) (trinomial; every entry a polynomial in theta, Pgf.ed_sum).
    Proof: trinomial moments sum S = N psihat, sum s S = N phiS psihat', sum i s S = N phiS phiI psihat'' (from the binomial
    moments, twice), absorption identities for the two shifted entries, boundary entries vanish on the manifold.
-   phiS <> 0: the code divides by sum s S_{s,i}; phiI + phiR <> 0 is used to cancel in the mixed moment. *)
-Theorem C07x_ebcm_to_effective_degree : forall c t N tau g phiS0 phiR0 (ps psP : Q -> Q) theta,
-  ~ theta == 0 -> ~ peval (phiI_p c tau g phiS0 phiR0) theta + peval (phiR_p tau g phiR0) theta == 0 -> forall R,
+   The only non-degeneracy hypotheses are the divisors of the code: phiS <> 0 and psihat'(theta) <> 0 (sum s S_{s,i} = N psihat' phiS),
+   psihat'(1) <> 0 (EBCM), N <> 0, and tau <> 0 (phi_R = phiR0 + gamma (1-theta)/tau). *)
+Theorem C07x_ebcm_to_effective_degree : forall c t N tau g phiS0 phiR0 (ps psP : Q -> Q) theta R,
   ps theta == peval c theta -> psP theta == D c theta -> psP 1 == D c 1 ->
   ~ tau == 0 -> ~ N == 0 -> ~ peval (phiS_p c phiS0) theta == 0 -> ~ D c theta == 0 -> ~ D c 1 == 0 ->
   let e := dEBCM [theta; R] t N tau g ps psP phiS0 phiR0 in
   veq (dSIR_effective_degree (Phi_ed c N tau g phiS0 phiR0 theta R) N (length c) (length c) tau g t)
       (DPhi_ed c N tau g phiS0 phiR0 theta (vnth 0 e) (vnth 1 e)).
 Proof. exact ebcm_to_ed. Qed.
-Theorem C07x_ebcm_to_effective_degree_generated : forall c t N tau g phiS0 phiR0 (ps psP : Q -> Q) theta,
-  ~ theta == 0 -> ~ peval (phiI_p c tau g phiS0 phiR0) theta + peval (phiR_p tau g phiR0) theta == 0 -> forall R,
+Theorem C07x_ebcm_to_effective_degree_generated : forall c t N tau g phiS0 phiR0 (ps psP : Q -> Q) theta R,
   ps theta == peval c theta -> psP theta == D c theta -> psP 1 == D c 1 ->
   ~ tau == 0 -> ~ N == 0 -> ~ peval (phiS_p c phiS0) theta == 0 -> ~ D c theta == 0 -> ~ D c 1 == 0 ->
   let e := dEBCM [theta; R] t N tau g ps psP phiS0 phiR0 in
@@ -172,9 +171,7 @@ Theorem C07x_effective_degree_from_graph : forall g rho_opt t tau gam theta R,
   wf_ugraph g = true ->
   let r := rho_or_default g rho_opt in let c := fg_coeffs g r in let N := gN g in
   ~ tau == 0 -> ~ theta == 0 -> ~ D c theta == 0 -> ~ D c 1 == 0 ->
-  ~ peval (phiS_p c (fg_phiS0 r)) theta == 0 ->
-  ~ peval (phiI_p c tau gam (fg_phiS0 r) fg_phiR0) theta + peval (phiR_p tau gam fg_phiR0) theta == 0 ->
-  ~ peval (u_p tau gam fg_phiR0) theta == 0 ->
+  ~ peval (phiS_p c (fg_phiS0 r)) theta == 0 -> ~ peval (u_p tau gam fg_phiR0) theta == 0 ->
   let e := dEBCM [theta; R] t N tau gam (fg_psihat g r) (fg_psihatPrime g r) (fg_phiS0 r) fg_phiR0 in
   veq (dSIR_compact_effective_degree (Phi_ced c N tau gam (fg_phiS0 r) fg_phiR0 theta R) t N tau gam)
       (DPhi_ced c N tau gam (fg_phiS0 r) fg_phiR0 theta (vnth 0 e) (vnth 1 e)) /\
@@ -271,7 +268,6 @@ Qed.
    the hypotheses of the effective degree theorem hold and the field is not zero *)
 Example C07x_nonvacuous_ed :
   let c3 := [0; 1 # 2; 1 # 2] in
-  ~ peval (phiI_p c3 1 (1 # 2) (3 # 4) 0) (7 # 8) + peval (phiR_p 1 (1 # 2) 0) (7 # 8) == 0 /\
   ~ peval (phiS_p c3 (3 # 4)) (7 # 8) == 0 /\ ~ D c3 (7 # 8) == 0 /\ ~ D c3 1 == 0 /\
   0 < peval (phiI_p c3 1 (1 # 2) (3 # 4) 0) (7 # 8) /\
   (let e := dEBCM [7 # 8; 3] 0 16 1 (1 # 2) (peval c3) (peval (pderiv c3)) (3 # 4) 0 in
@@ -279,7 +275,7 @@ Example C07x_nonvacuous_ed :
        (DPhi_ed c3 16 1 (1 # 2) (3 # 4) 0 (7 # 8) (vnth 0 e) (vnth 1 e)) /\
    ~ vnth 4 (dSIR_effective_degree (Phi_ed c3 16 1 (1 # 2) (3 # 4) 0 (7 # 8) 3) 16 3 3 1 (1 # 2) 0) == 0).
 Proof.
-  cbv zeta. do 4 (split; [intro H; vm_compute in H; discriminate|]). split; [vm_compute; reflexivity|].
+  cbv zeta. do 3 (split; [intro H; vm_compute in H; discriminate|]). split; [vm_compute; reflexivity|].
   split; [|intro H; vm_compute in H; discriminate].
   apply veqb_sound. vm_compute. reflexivity.
 Qed.
